@@ -14,6 +14,8 @@
 
 namespace dsim { extern thread_local int t_bypass; }
 
+namespace smc { int g_hash_mode = 0; }   // per-run hashing knob of the set/map subjects (one definition per binary)
+
 namespace vh {
 
 // ------------------------------------------------------------------ registry
@@ -107,6 +109,8 @@ struct RunResult {
     std::string cls = "ok", detail; dsim::Stats st; std::vector<dsim::Dec> decs; std::vector<Event> hist; std::map<std::string, long> probes;
     dsim::Params params; int nviol = 0; bool nontrivial = false; int ops_done = 0;
 };
+static std::string g_prop_now;
+const std::string& current_prop() { return g_prop_now; }
 static uint64_t mix64(uint64_t x) { x ^= x >> 33; x *= 0xff51afd7ed558ccdULL; x ^= x >> 33; x *= 0xc4ceb9fe1a85ec53ULL; x ^= x >> 33; return x; }
 static uint64_t fnv(const std::string& s) { uint64_t h = 1469598103934665603ULL; for (unsigned char c : s) h = (h ^ c) * 1099511628211ULL; return h; }
 uint64_t run_seed(uint64_t verif_seed, const std::string& prop, const std::string& subject, uint64_t index) {
@@ -115,7 +119,7 @@ uint64_t run_seed(uint64_t verif_seed, const std::string& prop, const std::strin
 
 static dsim::Params make_params(const Subject* sj, uint64_t runseed, const Program& prog, const std::string& prop) {
     dsim::Params p; Rng r(runseed ^ 0x5bd1e9955bd1e995ULL);
-    p.seed = runseed;
+    p.seed = runseed; g_prop_now = prop;
     int w = r.below(100);
     p.strategy = w < 30 ? dsim::S_RW : w < 50 ? dsim::S_PCT : w < 70 ? dsim::S_PRE1 : dsim::S_STALL;
     p.rw_permille = r.pick({20, 50, 100, 200, 400});
@@ -202,7 +206,7 @@ static std::string hist_line(const Subject* sj, const Event& e) {
 }
 static Replay make_replay(const Subject* sj, const std::string& prop, int tier, uint64_t runseed) {
     Replay rp; rp.subject = sj->name; rp.prop = prop; rp.seed = runseed; rp.tier = tier;
-    Rng g(runseed); sj->gen(g, rp.prog, tier, prop);
+    g_prop_now = prop; Rng g(runseed); sj->gen(g, rp.prog, tier, prop);
     return rp;
 }
 static void fill_replay_params(Replay& rp, const dsim::Params& p) { rp.soft_cap = p.soft_cap; rp.hard_cap = p.hard_cap; rp.arena_delay = p.arena_delay; rp.use_arena = p.use_arena ? 1 : 0; }
